@@ -245,7 +245,7 @@ def run_case(desc, V):
         if sub == 'advanced-index':
             # two advanced indices separated by a slice / Ellipsis (numpy then moves the indexed axes to the front of an
             # array that carries one more leading axis)
-            for istr in ('(0, Ellipsis, [1, 0])', '([1, 0], slice(None), [0, 2])'.replace('slice(None), ', '') if False else '([0, 1], [2, 0])', '(0, slice(None), [0, 1])'.replace('slice(None), ', 'Ellipsis, ')):
+            for istr in ('(0, None, [0, 1])', '([0, 1], None, 1)', '(0, Ellipsis, [1, 0])', '([1, 0], slice(None), [0, 2])'.replace('slice(None), ', '') if False else '([0, 1], [2, 0])', '(0, slice(None), [0, 1])'.replace('slice(None), ', 'Ellipsis, ')):
                 idx = eval(istr)
                 want = {}
                 for k, v in zip(Xl.keys(), Xl.values()):
